@@ -43,9 +43,9 @@ m("C02", "Flatten without clone", "ops/opset13/flatten.go",
 m("C02", "broadcast helper reshapes the original", "ops/multidir_broadcast.go",
   '\tt, ok := originalT.Clone().(tensor.Tensor)\n\tif !ok {\n\t\treturn nil, ErrTypeAssert("tensor.Tensor", originalT.Clone())\n\t}',
   '\tt := originalT')
-m("C02", "tensors map kept on the Model between Runs", "model.go",
-  '\ttensors := make(Tensors)\n\tfor inputName, inputTensor := range inputs {',
-  '\tif m.parameters["__cache"] == nil {\n\t}\n\ttensors := modelCache(m)\n\tfor inputName, inputTensor := range inputs {')
+m("C02", "intermediate tensors of a Run kept and re-used by the next Run", "model.go",
+  '\ttensors := make(Tensors)\n\tfor inputName, inputTensor := range inputs {\n\t\ttensors[inputName] = inputTensor\n\t}',
+  '\ttensors := make(Tensors)\n\tfor name, t := range m.parameters {\n\t\tif len(name) > 6 && name[:6] == "__run_" {\n\t\t\ttensors[name[6:]] = t\n\t\t}\n\t}\n\n\tdefer func() {\n\t\tfor _, o := range m.OutputNames() {\n\t\t\tif t, ok := tensors[o]; ok && t != nil && len(inputs) > 1 {\n\t\t\t\tm.parameters["__run_"+o] = t\n\t\t\t}\n\t\t}\n\t}()\n\n\tfor inputName, inputTensor := range inputs {\n\t\ttensors[inputName] = inputTensor\n\t}')
 m("C02", "ArgMax writes the input shape again", "ops/opset13/argmax.go",
   'newShape := inputs[0].Shape().Clone()', 'newShape := inputs[0].Shape()')
 m("C02", "LSTM initial_c reshaped in place", "ops/opset13/lstm.go",
@@ -61,7 +61,7 @@ m("C03", "broadcast repeats only A", "ops/multidir_broadcast.go",
   '\t\t\tcase sizeDimB == 1 && axis > 0:\n\t\t\t\tB, err = tensor.Repeat(B, axis, sizeDimA)')
 # ---- C04
 m("C04", "batched MatMul odometer stops one early", "ops/opset13/matmul.go",
-  '\t\tif dimSize == (dimSliceStart + 1) {\n\t\t\tif i == 0 {', '\t\tif dimSize == (dimSliceStart + 1) || (i == 0 && dimSize > 2 && dimSize == dimSliceStart+2) {\n\t\t\tif i == 0 {')
+  '\t\tif dimSize == (dimSliceStart + 1) {\n', '\t\tif dimSize == (dimSliceStart + 1) || (i == 0 && dimSize > 2 && dimSize == dimSliceStart+2) {\n')
 m("C04", "Gemm beta multiplies the product", "ops/opset13/gemm.go",
   '\ty, err := tensor.Mul(c, g.beta)', '\tx, err = tensor.Mul(x, g.beta)\n\tif err != nil {\n\t\treturn nil, err\n\t}\n\n\ty, err := tensor.Mul(c, float32(1))')
 m("C04", "Gemm alpha dropped for transA", "ops/opset13/gemm.go",
@@ -75,7 +75,7 @@ m("C05", "pads begin/end exchanged", "ops/opset13/conv.go",
   '\t\tif c.pads[i] != 0 {\n\t\t\tpadsBeforeShape := x.Shape().Clone()\n\t\t\tpadsBeforeShape[nNonSpatialDims+i] = c.pads[i]',
   '\t\tif c.pads[i+nSpatialDims] != 0 {\n\t\t\tpadsBeforeShape := x.Shape().Clone()\n\t\t\tpadsBeforeShape[nNonSpatialDims+i] = c.pads[i+nSpatialDims]')
 m("C05", "stride of axis 0 used for both axes", "ops/opset13/conv.go", 'dimWOutputIdx := w / c.strides[1]', 'dimWOutputIdx := w / c.strides[0]')
-m("C05", "SAME_LOWER computed as SAME_UPPER", "ops/opset13/conv.go", 'if c.autoPad == SameLower {\n\t\t\tpadHead = (padNeeded + 1) / 2', 'if c.autoPad == SameLower && padNeeded > 3 {\n\t\t\tpadHead = (padNeeded + 1) / 2')
+m("C05", "SAME_LOWER computed as SAME_UPPER for small paddings", "ops/opset13/conv.go", '\t\tif c.autoPad == SameLower {\n', '\t\tif c.autoPad == SameLower && padNeeded > 3 {\n')
 # ---- C06
 m("C06", "LSTM gate order iofc -> ifoc", "ops/opset13/lstm.go", 'return weights[0], weights[1], weights[2], weights[3], nil', 'return weights[0], weights[2], weights[1], weights[3], nil')
 m("C06", "LSTM output gate peephole uses the old cell", "ops/opset13/lstm.go",
@@ -93,7 +93,7 @@ m("C07", "Reshape allows two -1", "ops/opset13/reshape.go", '\t\t\t\tif newShape
 m("C07", "Flatten axis==rank mapped to rank-1", "ops/opset13/flatten.go", '\tif axis < 0 {\n\t\taxis = rank + axis\n\t}', '\tif axis < 0 {\n\t\taxis = rank + axis\n\t}\n\n\tif axis == rank && rank > 1 {\n\t\taxis = rank - 1\n\t}')
 m("C07", "Unsqueeze does not sort its axes", "ops/opset13/unsqueeze.go", '\tsort.Ints(axes)\n', '\t_ = sort.Ints\n')
 m("C07", "Squeeze negative axes off by one", "ops/opset13/squeeze.go", 'dimsToSqueeze[i] = nDims + val', 'dimsToSqueeze[i] = nDims - 1 + val')
-m("C07", "Shape returns int32", "ops/opset13/shape.go", '\tshape := make([]int64, len(nodeShape))\n\tfor i, dimSize := range nodeShape {\n\t\tshape[i] = int64(dimSize)\n\t}', '\tshape := make([]int32, len(nodeShape))\n\tfor i, dimSize := range nodeShape {\n\t\tshape[i] = int32(dimSize)\n\t}')
+m("C07", "Shape returns int32", "ops/opset13/shape.go", '\tshape := make([]int64, len(nodeShape))\n\n\tfor i, dimSize := range nodeShape {\n\t\tshape[i] = int64(dimSize)\n\t}', '\tshape := make([]int32, len(nodeShape))\n\n\tfor i, dimSize := range nodeShape {\n\t\tshape[i] = int32(dimSize)\n\t}')
 # ---- C08
 m("C08", "Concat negative axis off by one", "ops/opset13/concat.go", '\tif axis < 0 {\n\t\taxis = rank + axis\n\t}', '\tif axis < 0 {\n\t\taxis = rank - 1 + axis\n\t\tif axis < 0 {\n\t\t\taxis = 0\n\t\t}\n\t}')
 m("C08", "Gather negative index off by one", "ops/utils.go", '\t\tif n < 0 {\n\t\t\treturn n + offset\n\t\t}', '\t\tif n < 0 {\n\t\t\treturn n + offset - 1\n\t\t}')
